@@ -161,7 +161,59 @@ def out_labels(g):
     return [l for t in g["tensors"] for l in t if l[0] in "kqr"]
 
 
-KIND = {"positive": ("positive", "float64"), "signed": ("generic", "float64"), "complex": ("generic", "complex128")}
+KIND = {
+    "positive": ("positive", "float64"),
+    "signed": ("generic", "float64"),
+    "complex": ("generic", "complex128"),
+    # structured kinds (one per code shortcut visible in the BP sources):
+    # zsum / zsum-real: generic data, but one leaf tensor is |-> = (1,-1,0..)/sqrt2
+    #   on its bond (x) e_0 on its dangling labels, so that the message it sends
+    #   has entries summing to EXACTLY zero (the 'L2phased' normalisation fixes
+    #   the phase with sum(x) and has a branch for sum(x) == 0)
+    # graded: generic complex data with every bond scaled by the weights
+    #   (1, 1e-4) / (1, 1e-2, 1e-4): Schmidt components far below the default
+    #   cutoffs (5e-6, 1e-10) of the compression routines, far above zero
+    "zsum": ("generic", "complex128"),
+    "zsum-real": ("generic", "float64"),
+    "graded": ("generic", "complex128"),
+}
+GRADED = {2: (1.0, 1e-4), 3: (1.0, 1e-2, 1e-4)}
+
+
+def _label_count(g):
+    cnt = {}
+    for t in g["tensors"]:
+        for l in t:
+            cnt[l] = cnt.get(l, 0) + 1
+    return cnt
+
+
+def zsum_leaf(g):
+    """Index of the tensor that becomes the |-> leaf: the first tensor with
+    exactly one non-dangling label, that label being a plain bond (held by
+    two tensors; the hyper flavours divide by messages into other labels)."""
+    if g["cls"] == "lazy":
+        return None
+    cnt = _label_count(g)
+    for t, labels in enumerate(g["tensors"]):
+        inner = [l for l in labels if l[0] not in "kqrd"]
+        if any(l[0] == "d" for l in labels):
+            continue  # e_0 on a summed dangling label would put exact zeros into a message HD1BP / HV1BP divide by
+        if len(inner) == 1 and cnt[inner[0]] == 2 and all(cnt[l] == 1 for l in labels if l != inner[0]):
+            return t
+    return None
+
+
+def _minus_leaf(labels, ld, dtype):
+    a = np.ones((), dtype=dtype)
+    for l in labels:
+        v = np.zeros(ld[l], dtype=dtype)
+        if l[0] in "kqrd":
+            v[0] = 1.0
+        else:
+            v[0], v[1] = 2**-0.5, -(2**-0.5)
+        a = np.multiply.outer(a, v)
+    return a
 
 
 @functools.lru_cache(maxsize=256)
@@ -180,7 +232,19 @@ def _arrays(gjson, dims, data, mode):
         for t, labels in enumerate(g["tensors"]):
             shape = tuple(ld[l] for l in labels)
             a = np.asarray(fill(kind, shape, dtype, key=("c14", g["name"], dims, t, attempt)))
+            if data.startswith("zsum") and t == zsum_leaf(g):
+                a = _minus_leaf(labels, ld, dtype)
             arrs.append((a, tuple(labels)))
+        if data == "graded":
+            done = set()
+            for t, (a, labels) in enumerate(arrs):
+                for ax, l in enumerate(labels):
+                    if l[0] == "x" and l not in done:
+                        done.add(l)
+                        shp = [1] * a.ndim
+                        shp[ax] = -1
+                        a = a * np.reshape(np.asarray(GRADED[ld[l]]), shp)
+                arrs[t] = (a, labels)
         if mode == "2" and phys_labels(g):
             return arrs, attempt
         if data != "positive":
@@ -252,6 +316,9 @@ def _facts(f, entry, cell, g):
     """Structural facts of the CASE that are known to select a distinct code
     path for this (flavour, entry); part of the root-cause signature."""
     base = entry.split(">")[0]
+    if f == "HD1BP" and cell["data"].startswith("zsum") and cell.get("init", "default") == "default":
+        # default initial messages come from initialize_hyper_messages
+        return {"zero_sum_message": True, "init": "initialize_hyper_messages"}
     if entry == "run" and f in HAS_LC:
         return {"damping": "nonzero" if cell.get("damp") else "zero", "local_convergence": bool(cell.get("lc", True))}
     if f == "HV1BP" and base in ("contract", "contract(strip_exponent)", "contract_hv1bp", "zvals[-1]"):
@@ -304,6 +371,18 @@ def _seeded(key, dtype):
         return fill("positive", tuple(int(s) for s in shape), "float64", key=("c14init",) + tuple(key) + (cnt[0],)).astype(dtype)
 
     return fn
+
+
+class _Skip(Exception):
+    pass
+
+
+def _degenerate_gauge(cell):
+    """get_gauged_tn inverts the eigenvector matrix of the rank-1 matrix
+    outer(ma, mb); for bond dimension >= 3 its zero eigenvalue is degenerate
+    and on structured (exact zeros) messages LAPACK may return parallel
+    eigenvectors - an unconditioned decision, not asserted."""
+    return cell["data"].startswith("zsum") and cell["dims"] != "2"
 
 
 class _Eval:
@@ -461,9 +540,26 @@ def cell_bp(cell, common=None):
         E.bad("run", "exception", "%s: %s" % (type(exn).__name__, str(exn)[:300]))
         return E.out
     if not (info.get("converged") and bp.converged):
+        try:
+            nonfinite = sorted(k for k, m in _canon_messages(f, bp).items() if not np.all(np.isfinite(m)))
+        except Exception:
+            nonfinite = []
+        if nonfinite:
+            E.bad("run", "nonfinite-messages", "run() did not converge in %s iterations (max_mdiff %r) and %d message(s) are not finite, e.g. %s" % (info.get("iterations"), info.get("max_mdiff"), len(nonfinite), nonfinite[0]))
+            return E.out
         E.bad("run", "converged", "not converged after %s iterations, max_mdiff %r" % (info.get("iterations"), info.get("max_mdiff")))
         return E.out
     it = info["iterations"]
+    # a run that reports converged may not hold nan / inf messages (a nan
+    # distance compares False against tol); reported once, not read further
+    try:
+        bad_keys = sorted(k for k, m in _canon_messages(f, bp).items() if not np.all(np.isfinite(m)))
+    except Exception as exn:
+        E.bad("run", "exception", "reading the messages: %s: %s" % (type(exn).__name__, str(exn)[:200]))
+        return E.out
+    if bad_keys:
+        E.bad("run", "nonfinite-messages", "run() reported converged after %d iterations but %d message(s) are not finite, e.g. %s" % (it, len(bad_keys), bad_keys[0]))
+        return E.out
     # "converged" must be true: one more round over ALL messages (public
     # attribute local_convergence=False = "check all messages") may not move
     # any message by more than the tolerance (x1000 slack: local convergence tolerates inputs that moved by <= tol).  A
@@ -566,9 +662,13 @@ def _entries_D1BP(E, cell, g, arrs, ex, tn, bp):
         return tg.contract(all, output_inds=()), zero
 
     try:
+        if _degenerate_gauge(cell):
+            raise _Skip()
         full, zero = gauged()
         E.scalar("get_gauged_tn.contract", lambda: full, Z)
         E.scalar("get_gauged_tn.zeroth_entries", lambda: zero, Z)
+    except _Skip:
+        pass
     except Exception as exn:
         E.bad("get_gauged_tn.contract", "exception", "%s: %s" % (type(exn).__name__, str(exn)[:200]))
     for name in D1_LOOP_ENTRIES:
@@ -640,7 +740,7 @@ def _entries_HD1BP(E, cell, g, arrs, ex, tn, bp):
         except Exception as exn:
             E.bad("run_belief_propagation_hd1bp", "exception", "%s: %s" % (type(exn).__name__, str(exn)[:200]))
     if True:
-        if all(len(tids) == 2 for tids in tn.ind_map.values()) and tn.ind_map:
+        if all(len(tids) == 2 for tids in tn.ind_map.values()) and tn.ind_map and not _degenerate_gauge(cell):
 
             def gauged():
                 tg = bp.get_gauged_tn()
@@ -727,13 +827,27 @@ def _dense_of(tn, outs):
 def _tensor_entry(E, entry, fn, ex):
     """fn() -> TensorNetwork that must denote the same tensor as the input."""
 
+    sizes = []
+
     def go():
         out = fn()
         if set(out.outer_inds()) != set(ex["outs"]):
             raise RuntimeError("outer labels changed: %r" % (sorted(out.outer_inds()),))
+        if out.num_tensors == n_sites(E.g):
+            sizes.append(sorted(int(out.ind_size(ix)) for ix in out.inner_inds()))
         return [("dense", _dense_of(out, ex["outs"]), ex["psi"])]
 
     E.arrays(entry, go, what="tensor")
+    c = E.cell
+    if sizes and c["data"] == "graded" and c["dims"] == "2" and E.g["name"].split(":")[1] == "all":
+        # every bond has full rank with Schmidt weights ~(1, 1e-4): nothing
+        # may be discarded with max_bond=None, cutoff=0.0
+        ld = label_dims(E.g, c["dims"])
+        want = sorted(ld[l] for l in ld if l[0] == "x")
+        if sizes[0] != want:
+            E.bad(entry + ".bond_sizes", "bond-size", "bond sizes %r after an untruncated compression / gauging, %r before" % (sizes[0], want))
+        else:
+            E.ok(entry + ".bond_sizes")
 
 
 def _connected_wheres(g):
@@ -854,6 +968,15 @@ def _entries_L2BP(E, cell, g, arrs, ex, tn, bp):
     if n_sites(g) >= 2:
         _tensor_entry(E, "compress_l2bp(max_bond=None)", lambda: qbp.compress_l2bp(fresh_tn(), max_bond=None, cutoff=0.0, **st, **fk), ex)
         _tensor_entry(E, "compress_l2bp(max_bond=None,lazy)", lambda: qbp.compress_l2bp(fresh_tn(), max_bond=None, cutoff=0.0, lazy=True, **st, **fk), ex)
+    if n_sites(g) >= 2:
+        from quimb.tensor.tnag.compress import tensor_network_ag_compress
+
+        _tensor_entry(
+            E,
+            "tensor_network_ag_compress(method='l2bp')",
+            lambda: tensor_network_ag_compress(fresh_tn(), max_bond=None, cutoff=0.0, method="l2bp", site_tags=site_tags(g), max_iterations=MAXIT, tol=BP_TOL, update=cell["upd"], damping=cell["damp"], local_convergence=bool(cell.get("lc", True))),
+            ex,
+        )
     try:
         _, b2 = _fresh(E, cell, g, arrs, "normalize_message_pairs")
         b2.normalize_message_pairs()
@@ -1135,7 +1258,46 @@ def _bundles(f, tier):
     return out
 
 
+def cells_structured(tier, flavours):
+    """Structured data kinds x every flavour x dtype (appended to table O):
+    exact-zero-sum messages (complex: 'L2phased' is the default normalisation;
+    real: requested explicitly) and graded bond spectra for the 2-norm
+    gauging / compression entries."""
+    quick = tier == "quick"
+    cells = []
+    for f in flavours:
+        dims_list = ["2", "3"]
+        upds = ["parallel"] if f == "HV1BP" else ["sequential", "parallel"]
+        for g in _domain(f, tier):
+            ns = n_sites(g)
+            if ns < 2:
+                continue
+            orders = [list(range(ns)), list(range(ns))[::-1]]
+            jobs = []
+            if zsum_leaf(g) is not None and (not quick or ns <= 5):
+                jobs.append(("zsum", None))
+                if f != "HV1BP":
+                    jobs.append(("zsum-real", "L2phased"))
+                    if not quick:
+                        jobs.append(("zsum", "L2"))
+            if f in ("D2BP", "L2BP") and ":all" in g["name"] and g["cls"] != "lazy" or (f == "L2BP" and g["name"].endswith(":all:split")):
+                jobs.append(("graded", None))
+            for data, norm in jobs:
+                for order in orders if not quick else orders[:1] + (orders[1:] if data == "zsum" else []):
+                    for dims in dims_list:
+                        for upd in upds:
+                            c = {"f": f, "g": g, "ord": order, "dims": dims, "data": data, "exp": 0.0, "upd": upd, "damp": 0.0, "lc": True, "init": "default", "norm": norm, "ce": None, "extra": 1}
+                            if f in ("D2BP", "L2BP") and phys_labels(g) and g["cls"] != "lazy":
+                                c["structured"] = 1 if (f == "D2BP" or g["name"].endswith((":all", ":op"))) else 0
+                            cells.append(c)
+    return cells
+
+
 def cells_O(tier, flavours):
+    return _cells_O(tier, flavours) + cells_structured(tier, flavours)
+
+
+def _cells_O(tier, flavours):
     quick = tier == "quick"
     cells = []
     for f in flavours:
@@ -1283,7 +1445,7 @@ def run(ctx):
         "insertion_orders": "ALL n! orders for n <= %d%s; identity, reversal and all rotations above" % (4 if quick else 5, "" if quick else " (n = 6 too for D1BP/HD1BP/HV1BP, undamped)"),
         "other_geometries": sorted(FORESTS) + sorted(HYPER) + ["lazy: split sites (2 tensors/site), doubled bonds", "physical labels: all / even sites / none / op (k on every site + a size-3 label on even sites + a third label on site 0)"],
         "dims": "bond dimension 2, 3 and mixed 2/3 (HV1BP: uniform only)",
-        "data": ["positive", "signed", "complex"],
+        "data": ["positive", "signed", "complex", "zsum / zsum-real (one |-> leaf: a message summing to exactly zero)", "graded (bond weights 1, 1e-2, 1e-4; 2-norm flavours)"],
         "exponent": [0.0, 0.5],
         "schedule": "update {sequential, parallel} x damping {0, 0.3} x local_convergence {True, False}; init {default, seeded positive, dense, dict}; normalize {default, L1, Linf, L2}; contract_every {None, 1}",
         "bp_tol": BP_TOL,
@@ -1298,6 +1460,7 @@ def run(ctx):
         "lazy flavours get explicit site_tags or a structured TensorNetworkGenVector (DESIGN section 7)",
         "reduced density matrices are only asserted for connected sets of sites (one site, two adjacent sites): a disconnected region with boundary messages is not exact even on a tree",
         "power=1, smudge=0 for D2BP (other values change the fixed point on purpose); diis is not enumerated",
+        "get_gauged_tn is not read on the zero-sum-message data with bond dimension >= 3 (degenerate eigenvectors of a rank-1 matrix with exact zeros: LAPACK may return a singular eigenvector matrix)",
         "bond labels never collide with the default bra labels 'b{}' of D2BP.partial_trace",
         "'converged' is asserted as: one further round over all messages (local_convergence switched off through its public attribute) moves no message by more than 1000 x tol; a cell that fails this is reported once and not read further",
         "damping: only the converged result is asserted (L1BP/L2BP mix damping*new + (1-damping)*old, the reverse of the documented formula; the fixed point is the same)",
@@ -1313,6 +1476,11 @@ def run(ctx):
         tables.append(("M:sampling omega", "cell_sample", cells_M(ctx.tier)))
     if "R" in only:
         tables.append(("R:region counts", "cell_regions", cells_R(ctx.tier)))
+    if ctx.opts.get("data"):
+        # development aid: restrict the BP tables to some data kinds (the run is then not the claimed enumeration)
+        keep = tuple(ctx.opts["data"].split(","))
+        tables = [(n, fn, [c for c in cells if str(c.get("data", "")).startswith(keep)]) for n, fn, cells in tables]
+        ctx.cap("restricted to data kinds %r by --opt data=" % (keep,))
     for name, fname, cells in tables:
         t0 = ctx.elapsed()
         n_ok, n_rej, n_bad = table.run(ctx, fname, cells, name=name)
